@@ -974,7 +974,9 @@ func embeddedDeclarations(t *testing.T, r *evid.Run, tmp string) {
 	for ci, mk := range []func() (any, func() map[string]string){
 		func() (any, func() map[string]string) {
 			v := &one{}
-			return v, func() map[string]string { return map[string]string{"app/user": v.User, "app/token": string(v.Token), "app/direct": v.Direct} }
+			return v, func() map[string]string {
+				return map[string]string{"app/user": v.User, "app/token": string(v.Token), "app/direct": v.Direct}
+			}
 		},
 		func() (any, func() map[string]string) {
 			v := &two{}
